@@ -20,7 +20,8 @@ CHECKS['C06'] = dict(
          'symbols (range/no failing lookup, left and right injectivity, adjacent transposition, completion, exact Luhn failure set, Mod 97-10 '
          'simulation and two-digit completion); Lean 4 (lean/Fold.lean, compiled on every run) lifts them to strings of every length.',
     note='Trusted: the glue "for-loop over a sequence == List.foldl of its body", mathematical integers, z3, Lean kernel. The extracted step is '
-         'cross-checked against symbolic execution of the whole real checksum() for lengths 0..4.',
+         'cross-checked against symbolic execution of the whole real checksum() for lengths 0..4; the state set is the exact closure of the '
+         'extracted step; a bounded native net (all strings up to length 2..5 through the real functions) stands next to the lemmas.',
     technique='step-function extraction from the real AST + z3 finite lemmas + Lean 4 induction schemas')
 CHECKS['C10'] = dict(
     category='proof', design_ref='DESIGN.md §C10',
@@ -72,8 +73,9 @@ CHECKS['C09'] = dict(
     category='other', design_ref='DESIGN.md §C09',
     text='Union wrappers (US TIN, Thai TIN, Belgian SSN, Spanish NIF) are verified by relational symbolic execution: wrapper and all constituent '
          'validate() run on one unknown input in one path context, per input length, with the obligation accepts(W) <=> OR accepts(M_i). '
-         'Dispatch tables of EU VAT / VATIN / IBAN are evaluated on their complete finite key domains against what stdnum/<cc>/__init__.py binds. '
-         'Level other because the EU VAT / VATIN / IBAN / thin-wrapper result equalities are a bounded differential, not a proof.',
+         'Thin wrappers (no.mva, se.vat, ch.vat, fi.ytunnus, sk.rc, mc.tva) the same way: wrapper accepts v => constituent accepts the embedded part, '
+         'and conversely. Dispatch tables of EU VAT / VATIN / IBAN are evaluated on their complete finite key domains against what '
+         'stdnum/<cc>/__init__.py binds. Level other because the EU VAT / VATIN / IBAN result equalities are a bounded differential, not a proof.',
     note='Relational runs cover normalised input lengths 0..16 (quick) / 0..24 (thorough); us.tin normalises the input in two incompatible ways and '
          'is undecided (bounded stand-in only).',
     technique='relational symbolic execution + exhaustive table evaluation + bounded differential')
@@ -107,7 +109,8 @@ CHECKS['C05'] = dict(
          'usual conventions confirmed on the corpus). On every accepting path of validate(): the generated character is the one present, the '
          'generator does not depend on it, and replacing it by any other alphanumeric character makes the symbolic re-run of validate() raise on '
          'every path.',
-    note='Completion (payload + generated check is never a checksum error) is a bounded stand-in on mutated corpus payloads. Formats with documented '
+    note='Completion (payload + generated check is never a checksum error) is a symbolic obligation for the lengths at which the relation was '
+         'established on the accepting paths (alphanumeric canonical payloads), plus a bounded run on mutated corpus payloads. Formats with documented '
          'alternative check characters are exempt from the alteration obligation. ' + _VF_NOTE,
     technique='symbolic closures (generator, altered re-validation) under each accepting path condition, z3')
 CHECKS['C07'] = dict(
@@ -140,8 +143,8 @@ CHECKS['C12'] = dict(
 CHECKS['C16'] = dict(
     category='other', design_ref='DESIGN.md §C16',
     text='Codec lemmas per (format, type) of the GS1 registry: str/int codecs executed symbolically for every admitted length, date and decimal '
-         'codecs evaluated exhaustively (or on a dense sample) on the real functions; framing lemmas (prefix-free AI set, fixed elements encoded at '
-         'full length). Level other because the composition of several elements is bounded (pairs in both orders, hand-built strings, separators).',
+         'codecs evaluated exhaustively (or on a dense sample) on the real functions; the padded form of every variable-length str/int element '
+         '(decode(pad(encode(v))) == v); framing lemmas (prefix-free AI set, fixed elements encoded at full length). Level other because the composition of several elements is bounded (pairs in both orders, hand-built strings, separators).',
     note='Composition is a bounded stand-in. Formats the library cannot size (C11 findings) are excluded from composition.',
     technique='symbolic codec lemmas + exhaustive evaluation + bounded composition')
 CHECKS['C17'] = dict(
